@@ -44,6 +44,9 @@ class CallMixin:
                 # an object given by a (partial) model may carry state the model does not mention: unknown value
                 v = SV('opq', self.sym('unknown_field_' + name, OPQ), 'unknown')
                 h.f[name] = v
+                eh = getattr(self.st, 'entry_heap', None)
+                if eh is not None and base.t in eh:
+                    eh[base.t].f.setdefault(name, v)      # the value the field had at entry (frame check)
                 return v
             raise PyRaise('AttributeError', name)
         if k == 'cls':
@@ -219,6 +222,20 @@ class CallMixin:
                 ck = '__cached_' + name
                 if ck in h.f:
                     return h.f[ck]
+                if getattr(h, 'symbolic_model', False) and self.cache_may_be_stale(name, ent['get'], owner):
+                    # an object given by a model has a history: the property may have been read in an EARLIER state of the object, and
+                    # functools.cached_property is never invalidated by assignments to the fields it was computed from
+                    if self.branch(self.sym('cache_filled_' + name, BOOL)):
+                        try:
+                            shape = self.call_value(SV('func', fv), [], {}, node)      # for the shape of the value only
+                        except PyRaise:
+                            raise PathEnd()
+                        v = self.havoc_like(shape, 'stale_' + name)
+                        h.f[ck] = v
+                        eh = getattr(self.st, 'entry_heap', None)
+                        if eh is not None and recv.t in eh:
+                            eh[recv.t].f.setdefault(ck, v)
+                        return v
                 v = self.call_value(SV('func', fv), [], {}, node)
                 h.f[ck] = v
                 return v
@@ -235,6 +252,26 @@ class CallMixin:
         if recv.k == 'cls':
             return SV('func', FuncVal(node=fn, owner=owner, name=name, module=ci.module))   # unbound
         return SV('func', FuncVal(node=fn, bound=recv, owner=owner, name=name, module=ci.module))
+
+    def cache_may_be_stale(self, name, getter, owner):
+        from . import registry
+        if name in registry.load().cache_ok:
+            return False
+        reads_self = any(isinstance(n, ast.Attribute) and isinstance(n.value, ast.Name) and n.value.id == 'self' for n in ast.walk(getter))
+        if not reads_self:
+            return False            # computed from class constants only: always consistent
+        # a cache that the code invalidates somewhere needs an invariant the engine does not have: undecided, never an alarm
+        for ci in self.src.classes.values():
+            for m in ci.methods.values():
+                for fn_ in m.values():
+                    if not isinstance(fn_, ast.AST):
+                        continue
+                    for n in ast.walk(fn_):
+                        if isinstance(n, ast.Delete) and any(isinstance(t, ast.Attribute) and t.attr == name for t in n.targets):
+                            raise Unsupported(f'cached_property {name} is invalidated in the code: needs a consistency invariant')
+                        if isinstance(n, ast.Constant) and n.value == name and not isinstance(fn_, ast.Constant):
+                            raise Unsupported(f"cached_property {name}: the code refers to it by name ('{name}'), possibly to invalidate it")
+        return True
 
     def cls_attr(self, cls, name, node=None, default=None):
         if name == '__name__':
